@@ -18,12 +18,18 @@ DDirNames == { <<"a">>, <<"a", "x">>, <<"a", "x", "y">> }
 (* thorough tier: three top-level entries over a reduced alphabet (full alphabet cubed is 8 M CLI runs) *)
 TTargets == { T(FALSE, <<"..", "sent">>), T(TRUE, <<"w", "sent">>), T(FALSE, <<"..", "sdir">>), T(FALSE, <<"b">>), T(FALSE, <<"..">>) }
 TEntries == { F(n) : n \in { <<"a">>, <<"b">>, <<"..", "a">>, <<"a", "b">> } } \cup { L(n, t) : n \in { <<"a">>, <<"b">> }, t \in TTargets }
+(* names that resolve to the output directory itself, and names one suffix away from another entry's (a temporary
+   name an implementation may derive, "a.part") *)
+ZEntries == { F(<<"a">>), F(<<"b">>), L(<<"..">>, T(FALSE, <<"..", "sdir">>)), L(<<".">>, T(FALSE, <<"..", "sdir">>)),
+              L(<<"a.part">>, T(FALSE, <<"..", "sent">>)), L(<<"a.part">>, T(TRUE, <<"w", "new">>)), L(<<"a.tmp">>, T(FALSE, <<"..", "sent">>)) }
+ZDirNames == { <<"a">> }
 NoPre  == [p \in {} |-> [t |-> "dir"]]
 PreLink == (<<"a">> :> [t |-> "link", to |-> T(FALSE, <<"..", "sent">>)])
 PreDirLink == (<<"a">> :> [t |-> "link", to |-> T(FALSE, <<"..", "sdir">>)])
 PreDir == (<<"a">> :> [t |-> "dir"])
 QPre == { NoPre, PreLink, PreDirLink, PreDir }
 SPre == { NoPre }
+ZPre == { NoPre, (<<"a.part">> :> [t |-> "link", to |-> T(FALSE, <<"..", "sent">>)]) }
 NoMatch == { <<>> }
 (* --path: the looked-up names meet pre-existing links and directories and entries whose block is missing *)
 PMatch == { <<"a">>, <<"a", "b">>, <<"b">>, <<"a", "f">> }
